@@ -52,6 +52,9 @@ var faultKinds = []faultKind{
 	{"error+data,resumes", xport.FaultError, true, true},
 	{"io.ErrUnexpectedEOF", xport.FaultUnexpectedEOF, false, false},
 	{"io.ErrUnexpectedEOF+data", xport.FaultUnexpectedEOF, true, false},
+	// a net.Error that calls itself temporary without being a timeout
+	{"temporary", xport.FaultTemporary, false, false},
+	{"temporary+data,resumes", xport.FaultTemporary, true, true},
 }
 
 func genFaultCase(t *rapid.T) FaultCase {
